@@ -351,6 +351,8 @@ def subst_value(v, pairs):
         return tuple(subst_value(x, pairs) for x in v)
     if isinstance(v, list):
         return [subst_value(x, pairs) for x in v]
+    if isinstance(v, dict):
+        return {k: subst_value(x, pairs) for k, x in v.items()}
     if hasattr(v, "pyvc_subst"):
         return v.pyvc_subst(pairs)
     return v
@@ -423,3 +425,44 @@ def as_symmap(d, ksort=None, vsort=None, name="map"):
         dom = z3.Store(dom, kt, z3.BoolVal(True))
         val = z3.Store(val, kt, vt)
     return SymMap(dom, val, name=name)
+
+
+class SymList:
+    """A mutable list of numbers with symbolic length: (len term, Array Int->Real|Int).
+    Supports append, len, indexing; used for accumulators inside invariant-verified loops."""
+
+    def __init__(self, length, arr, name="list"):
+        self.length = length  # z3 Int term
+        self.arr = arr
+        self.name = name
+
+    @staticmethod
+    def from_concrete(items, real=True, name="list"):
+        arr = z3.K(z3.IntSort(), z3.RealVal(0) if real else z3.IntVal(0))
+        for i, x in enumerate(items):
+            arr = z3.Store(arr, i, to_term(x, "real") if real else to_term(x))
+        return SymList(z3.IntVal(len(items)), arr, name)
+
+    def append(self, x):
+        xt = to_term(x, "real") if self.arr.range() == z3.RealSort() else to_term(x)
+        self.arr = z3.Store(self.arr, self.length, xt)
+        self.length = z3.simplify(self.length + 1)
+        cur().event("list-append", self.name)
+
+    def pyvc_len(self):
+        return wrap(self.length)
+
+    def pyvc_getitem(self, k):
+        e = cur()
+        n = wrap(self.length)
+        if not e.truth(sym_and(k >= 0, k < n)):
+            from .interp import PyRaise
+            from .objects import PyExc
+            raise PyRaise(PyExc(IndexError, ("list index out of range",)))
+        return wrap(z3.simplify(z3.Select(self.arr, to_term(k))), True)
+
+    def sym_truth(self):
+        return wrap(self.length > 0)
+
+    def __repr__(self):
+        return f"SymList<{self.name}>"
